@@ -1081,6 +1081,279 @@ def extract(repo=None):
     return tables
 
 
+# ------------------------------------------------------------------------------------------------ Serialize / Deserialize
+SER_CLASSES = [t for t in CLASSES if t[0] not in ("Mix", "Reaction")] + [("NameDouble", "NameDouble", "cxxNameDouble"),
+                                                                         ("SurfDL", "SurfaceCharge", "cxxSurfDL")]
+
+
+def _strip_casts(e):
+    e = norm_expr(e)
+    while True:
+        m = re.match(r"^\((?:int|size_t|LDBLE|double|[\w:]+)\)\s*(.+)$", e)
+        if m and not re.match(r"^\(\*\w+\)", e):
+            e = norm_expr(m.group(1))
+            continue
+        return e
+
+
+class SerWalker:
+    """symbolic order of pushes (Serialize) / pops (Deserialize): list of [kind, target] with kind i/d/w/nest and loop brackets"""
+    def __init__(self, members, where):
+        self.members, self.where = members, where
+        self.ev = []
+        self.cond_reads = []
+
+    def mem(self, e):
+        e = _strip_casts(e)
+        m = re.match(r"^(?:this->)?(\w+)(\[(\d+)\])?$", e)
+        if m and m.group(1) in self.members:
+            return m.group(1) + (f"[{m.group(3)}]" if m.group(3) else "")
+        return None
+
+    # ---------------------------------------------------------------- Serialize
+    def ser_target(self, e, loops, locs):
+        e = _strip_casts(e)
+        m = re.match(r"^(.+?) \? 1 : 0$", e)
+        if m:
+            e = _strip_casts(m.group(1))
+        m = re.match(r"^this->(\w+) == [\w:]+\) \? 0 : 1$", e) or re.match(r"^\(?this->(\w+) == [\w:]+\)? \? 0 : 1$", e)
+        if m and m.group(1) in self.members:
+            return m.group(1)
+        if e in locs:
+            return locs[e]
+        t = self.mem(e)
+        if t:
+            return t
+        m = re.match(r"^(?:this->)?(\w+)\.size\(\)$", e)
+        if m and m.group(1) in self.members:
+            return m.group(1) + ".size"
+        if e in ("(*this).size()", "this->size()"):
+            return "self.size"
+        for lp in reversed(loops):
+            v, c = lp["var"], lp["cont"]
+            if re.match(r"^(\(\*%s\)\.|%s->)first$" % (v, v), e):
+                return c + ".key"
+            if re.match(r"^(\(\*%s\)\.|%s->)second$" % (v, v), e):
+                return c + ".val"
+            if re.match(r"^(?:this->)?%s\[%s\]$" % (c, v), e):
+                return c + ".elem"
+        fail(self.where, "Serialize: unrecognised pushed expression", e)
+
+    def ser(self, nodes, loops, locs):
+        for nd in nodes:
+            if nd[0] == "block":
+                self.ser(nd[1], loops, locs)
+            elif nd[0] == "for":
+                h = norm_stmt(nd[1])
+                m = re.search(r"(\w+) = (?:this->|\(\*this\)\.)?(\w+)?\.?begin\(\); \1 != ", h) or re.match(r"^size_t (\w+) = 0; \1 < (?:this->)?(\w+)\.size\(\); \1\+\+$", h)
+                if "(*this).begin()" in h:
+                    var = re.search(r"(\w+) = \(\*this\)\.begin", h).group(1)
+                    cont = "self"
+                elif m and m.group(2) in self.members:
+                    var, cont = m.group(1), m.group(2)
+                else:
+                    fail(self.where, "Serialize: unrecognised loop", h)
+                self.ev.append(["loop[", cont])
+                self.ser(nd[2], loops + [dict(var=var, cont=cont)], locs)
+                self.ev.append(["]", cont])
+            elif nd[0] == "stmt":
+                st = nd[1]
+                m = re.match(r"^(ints|doubles)\.push_back\((.*)\)$", st)
+                if m:
+                    arg = norm_expr(m.group(2))
+                    mm = re.match(r"^dictionary\.Find\((.*)\)$", arg)
+                    if mm:
+                        self.ev.append(["w", self.ser_target(mm.group(1), loops, locs)])
+                    else:
+                        t = self.ser_target(arg, loops, locs)
+                        kind = "w" if t.startswith("@w:") else ("i" if m.group(1) == "ints" else "d")
+                        self.ev.append([kind, t[3:] if t.startswith("@w:") else t])
+                    continue
+                m = re.match(r"^int (\w+) = dictionary\.Find\((.*)\)$", st)
+                if m:
+                    locs = dict(locs)
+                    locs[m.group(1)] = "@w:" + self.ser_target(m.group(2), loops, locs)
+                    self._locs = locs
+                    continue
+                m = re.match(r"^(.+?)(\.|->)Serialize\(dictionary, ints, doubles\)$", st)
+                if m:
+                    tgt = m.group(1)
+                    if self.mem(tgt):
+                        self.ev.append(["nest", self.mem(tgt)])
+                    else:
+                        self.ev.append(["nest", self.ser_target(tgt, loops, locs)])
+                    continue
+                if re.match(r"^std::map\s*<[^;]*>::(const_)?iterator \w+$", st) or st == "return":
+                    continue
+                fail(self.where, "Serialize: unrecognised statement", st)
+            else:
+                fail(self.where, f"Serialize: unsupported control statement {nd[0]}", str(nd[1]))
+            locs = getattr(self, "_locs", locs)
+
+    # ---------------------------------------------------------------- Deserialize
+    READ = re.compile(r"ints\[ii\+\+\]|doubles\[dd\+\+\]")
+
+    def deser(self, nodes, locs, cond=False):
+        for nd in nodes:
+            if nd[0] == "block":
+                self.deser(nd[1], locs, cond)
+            elif nd[0] == "if":
+                c = norm_stmt(nd[1])
+                if not re.match(r"^\w+\.size\(\) != 0$", c) or nd[3]:
+                    fail(self.where, "Deserialize: unrecognised condition", c)
+                self.deser(nd[2], locs, True)
+            elif nd[0] == "for":
+                h = norm_stmt(nd[1])
+                m = re.match(r"^int (\w+) = 0; \1 < (\w+); \1\+\+$", h)
+                if not m or m.group(2) not in locs:
+                    fail(self.where, "Deserialize: unrecognised loop", h)
+                cnt = locs[m.group(2)]
+                start = len(self.ev)
+                self.ev.append(["loop[", "?"])
+                self.deser(nd[2], locs, cond)
+                conts = {t.split(".")[0] for k, t in self.ev[start + 1:] if k in ("i", "d", "w", "nest") and "." in t and not t.startswith("@")}
+                inner_open = [e for e in self.ev[start + 1:] if e[0] == "loop["]
+                if len(conts) != 1 and not inner_open:
+                    fail(self.where, "Deserialize: loop does not fill exactly one container", f"{h} {conts}")
+                cont = sorted(conts)[0] if len(conts) == 1 else "?"
+                self.ev[start][1] = cont
+                self.ev.append(["]", cont])
+                cnt[1] = cont + ".size"
+            elif nd[0] == "stmt":
+                self.deser_stmt(nd[1], locs, cond)
+            else:
+                fail(self.where, f"Deserialize: unsupported control statement {nd[0]}", str(nd[1]))
+
+    def new_read(self, rhs, cond):
+        """event for a right-hand side that pops one value: returns the event"""
+        r = norm_expr(rhs)
+        if re.match(r"^dictionary\.GetWords\(\)\[ints\[ii\+\+\]\]$", r):
+            ev = ["w", "@"]
+        elif re.match(r"^(\([\w:]+\) ?)?ints\[ii\+\+\]$", r) or re.match(r"^\(?ints\[ii\+\+\] (!=|==) 0\)?( \? [\w:]+ : [\w:]+)?$", r):
+            ev = ["i", "@"]
+        elif re.match(r"^(\([\w:]+\) ?)?doubles\[dd\+\+\]$", r):
+            ev = ["d", "@"]
+        else:
+            fail(self.where, "Deserialize: unrecognised popped expression", r)
+        if cond:
+            self.cond_reads.append(ev)
+        self.ev.append(ev)
+        return ev
+
+    def lhs_target(self, lhs, locs):
+        """where an assignment lands: member target string; resolves key locals as a side effect"""
+        l = norm_expr(lhs)
+        t = self.mem(l)
+        if t:
+            return t
+        m = re.match(r"^(?:this->)?(\w+)\[(\w+)\]$", l)
+        if m and m.group(1) in self.members:
+            if m.group(2) in locs:
+                locs[m.group(2)][1] = m.group(1) + ".key"
+            return m.group(1) + ".val"
+        m = re.match(r"^\(\*this\)\[(\w+)\]$", l)
+        if m:
+            if m.group(1) in locs:
+                locs[m.group(1)][1] = "self.key"
+            return "self.val"
+        return None
+
+    def deser_stmt(self, st, locs, cond):
+        n_reads = len(self.READ.findall(st))
+        # nested object
+        m = re.match(r"^(.+?)\.Deserialize\(dictionary, ints, doubles, ii, dd\)$", st)
+        if m:
+            tgt = m.group(1)
+            if self.mem(tgt):
+                self.ev.append(["nest", self.mem(tgt)])
+            elif re.match(r"^\w+$", tgt):
+                ev = ["nest", "@"]
+                self.ev.append(ev)
+                locs[tgt] = ev
+            else:
+                fail(self.where, "Deserialize: unrecognised nested target", st)
+            return
+        if n_reads == 0:
+            # uses of locals that decide where a popped value went
+            m = re.match(r"^(.+?) = (\w+)$", st)
+            if m and m.group(2) in locs:
+                t = self.lhs_target(m.group(1), locs)
+                if t is None:
+                    fail(self.where, "Deserialize: local stored into something that is not a member", st)
+                locs[m.group(2)][1] = t
+                return
+            m = re.match(r"^(?:this->)?(\w+)\.push_back\((\w+)\)$", st)
+            if m and m.group(2) in locs and m.group(1) in self.members:
+                locs[m.group(2)][1] = m.group(1) + ".elem"
+                return
+            m = re.match(r"^std::string (\w+) = dictionary\.GetWords\(\)\[(\w+)\]$", st)
+            if m and m.group(2) in locs:
+                locs[m.group(2)][0] = "w"
+                locs[m.group(1)] = locs[m.group(2)]
+                return
+            if re.match(r"^(?:this->|\(\*this\)\.)?(\w+\.)?clear\(\)$", st) or re.match(r"^this->n_user_end = this->n_user$", st) \
+                    or re.match(r'^this->description = " +"$', st) or re.match(r"^assert\(\w+ >= 0\)$", st) \
+                    or re.match(r"^cxx\w+ \w+(\(this->io\)|\(this->Get_io\(\)\))?$", st) or re.match(r"^std::string \w+\(\w+\.Get_name\(\)\)$", st) \
+                    or re.match(r"^(int|double|LDBLE|std::string) \w+$", st) or st == "return":
+                return
+            fail(self.where, "Deserialize: unrecognised statement", st)
+        # statements that pop
+        m = re.match(r"^(?:this->)?(\w+)\.push_back\((.*)\)$", st)
+        if m and m.group(1) in self.members and n_reads == 1:
+            self.new_read(m.group(2), cond)[1] = m.group(1) + ".elem"
+            return
+        m = re.match(r"^(?:int|double|LDBLE|size_t|std::string) (\w+) = (.*)$", st) or (re.match(r"^(\w+) = (.*)$", st) if re.match(r"^(\w+) = ", st) and re.match(r"^(\w+) = ", st).group(1) in locs else None)
+        if m and n_reads == 1:
+            ev = self.new_read(m.group(2), cond)
+            locs[m.group(1)] = ev
+            return
+        m = re.match(r"^(.+?) = (.*)$", st)
+        if m:
+            lhs, rhs = m.group(1), m.group(2)
+            lk = self.READ.findall(lhs)
+            if len(lk) == 1 and n_reads == 2:          # M[ints[ii++]] = doubles[dd++]
+                mm = re.match(r"^(?:this->)?(\w+)\[(ints\[ii\+\+\])\]$", norm_expr(lhs))
+                if not mm or mm.group(1) not in self.members:
+                    fail(self.where, "Deserialize: unrecognised keyed assignment", st)
+                self.new_read(mm.group(2), cond)[1] = mm.group(1) + ".key"
+                self.new_read(rhs, cond)[1] = mm.group(1) + ".val"
+                return
+            if n_reads == 1 and not lk:
+                t = self.lhs_target(lhs, locs)
+                if t is None:
+                    fail(self.where, "Deserialize: popped value stored into something that is not a member", st)
+                self.new_read(rhs, cond)[1] = t
+                return
+        fail(self.where, "Deserialize: unrecognised popping statement", st)
+
+
+def parse_serializer(tab, cls, src, members, where):
+    sb, sline = function_body(src, cls, "Serialize", where)
+    db, dline = function_body(src, cls, "Deserialize", where)
+    ws = SerWalker(members, where + " Serialize")
+    ws.ser(parse_block(sb, where), [], {})
+    wd = SerWalker(members, where + " Deserialize")
+    wd.deser(parse_block(db, where), {})
+    for k, t in wd.ev:
+        if t in ("@", "?"):
+            fail(where, "Deserialize: a popped value is never stored", str(wd.ev))
+    return dict(name=tab, ser=[tuple(e) for e in ws.ev], deser=[tuple(e) for e in wd.ev],
+                conditional_pops=[tuple(e) for e in wd.cond_reads], lines=(sline, dline))
+
+
+def extract_serializers(repo=None):
+    repo = Path(repo or vlib.REPO)
+    base = repo / "src" / "phreeqcpp"
+    out = []
+    for tab, stem, cls in SER_CLASSES:
+        src = preprocess(strip_comments((base / f"{stem}.cxx").read_text(errors="replace")), stem + ".cxx")
+        hsrc = preprocess(strip_comments((base / f"{stem}.h").read_text(errors="replace")), stem + ".h")
+        members = class_members(hsrc, cls, stem + ".h") if cls != "cxxNameDouble" else {}
+        members = dict(members, n_user="int", n_user_end="int", description="std::string")      # cxxNumKeyword base
+        out.append(parse_serializer(tab, cls, src, members, f"{stem}.cxx {cls}"))
+    return out
+
+
 # ------------------------------------------------------------------------------------------------ obligations (mirror)
 def find_option(item, vopts, exact=False):
     tok = item.lower()
@@ -1201,6 +1474,16 @@ def ll(xs):
     return "[" + ", ".join(xs) + "]"
 
 
+def emit_ser(sers):
+    o = ["/-- push / pop sequences of Serialize / Deserialize (tools/gen_raw.py, `extract_serializers`) -/", "def serTabs : List SerTab := ["]
+    rows = []
+    for t in sers:
+        f = lambda evs: ll(f"⟨{ls(k)}, {ls(x)}⟩" for k, x in evs)
+        rows.append(f"  ⟨{ls(t['name'])},\n   {f(t['ser'])},\n   {f(t['deser'])}⟩")
+    o.append(",\n".join(rows) + "]")
+    return "\n".join(o) + "\n"
+
+
 def emit(tables):
     o = ["/- GENERATED by tools/gen_raw.py from src/phreeqcpp/*.cxx — do not edit. -/",
          "import PhreeqcVerif.Model.RawTables", "namespace PhreeqcVerif.Gen.Raw", "open PhreeqcVerif.Raw", ""]
@@ -1241,11 +1524,14 @@ def emit(tables):
 
 def generate(ctx=None):
     tables = extract()
-    text = emit(tables)
+    sers = extract_serializers()
+    text = emit(tables).replace("end PhreeqcVerif.Gen.Raw", emit_ser(sers) + "\nend PhreeqcVerif.Gen.Raw")
     out = vlib.LEAN / "PhreeqcVerif" / "Gen" / "RawTables.lean"
     if not out.exists() or out.read_text() != text:
         out.write_text(text)
-    return dict(tables=tables, defects=defects(tables), latent=latent(tables), classes=len(tables), written_keys=sum(len(t["written"]) for t in tables),
+    ser_defects = [(t["name"], "serialize_symmetric", next((f"{a} vs {b}" for a, b in zip(t["ser"], t["deser"]) if a != b), "length"))
+                   for t in sers if t["ser"] != t["deser"]]
+    return dict(serializers=sers, ser_defects=ser_defects, tables=tables, defects=defects(tables), latent=latent(tables), classes=len(tables), written_keys=sum(len(t["written"]) for t in tables),
                 options=sum(len(t["vopts"]) for t in tables), cases=sum(len(t["reader"]["cases"]) for t in tables),
                 sources=[f"{t['file']}:{t['dump_raw_line']},{t['read_raw_line']}" for t in tables])
 
@@ -1269,3 +1555,8 @@ if __name__ == "__main__":
         print("DEFECT", d)
     for d in latent(ts):
         print("latent", d)
+    for t in extract_serializers(sys.argv[1] if len(sys.argv) > 1 else None):
+        print("SER", t["name"], "EQUAL" if t["ser"] == t["deser"] else "DIFFERENT", len(t["ser"]), t["conditional_pops"])
+        if t["ser"] != t["deser"]:
+            for a, b in zip(t["ser"], t["deser"]):
+                print("   ", a, b, "" if a == b else "<<<")
